@@ -340,9 +340,10 @@ pub fn profile(name: &str) -> Option<Profile> {
                 (LatePair, 2),
                 (Put, 34), (Del, 10), (Batch, 8), (Rotate, 6), (Flush, 14), (FlushSealed, 3), (Leveled, 16),
                 (Major, 6), (MoveDown, 4), (PullDown, 3), (SnapOpen, 2), (SnapRelease, 2), (Reopen, 2),
-                (Ingest, 5), (DropRange, 4),
+                (Ingest, 5), (DropRange, 4), (WeakDel, 5),
             ]),
             n_g: 36,
+            n_w: 6,
             n_d: 8,
             blob_pct: 30,
             ..base
